@@ -422,6 +422,12 @@ structure Flags where
   /-- … and the cap tensors are copied from the file (`get_cap_tensor` → `set_cap_tensor`),
       not recomputed -/
   importCopiesCaps : Bool
+  /-- `_read_file`: the test on `attrs["writing"]` is a top-level statement, i.e. it is not
+      skipped when another condition (e.g. the version check) holds -/
+  readWarnUnconditional : Bool
+  /-- `close()`: the guard of the flag reset mentions only `self._write` and the flag
+      (`closeReset` above takes any further operand as True) -/
+  closeResetPure : Bool
 
 /-! ## 5. Process tensors in memory -/
 
